@@ -16,7 +16,7 @@
 (*   <<"shared", k>>     the k-th shared structure (one object, wherever   *)
 (*        it is referenced); Shared(k) gives its recipe                    *)
 (* The identity of a node is its path from the root (sequence of child     *)
-(* positions), or <<"S", k>> \o path-inside for nodes of shared structure  *)
+(* positions), or <<0, k>> (0 is never a child position) \o path-inside for nodes of shared structure  *)
 (* k, or the leaf descriptor itself for leaves (their identity is not      *)
 (* observable beyond their kind).                                          *)
 (***************************************************************************)
@@ -33,7 +33,7 @@ IsLeaf(t) == t[1] = "leaf"
 IsObj(t) == t[1] = "obj"
 
 (* resolve a reference: <<recipe, identity>> of the node at `t` reached by `path` *)
-Res(t, path) == IF t[1] = "shared" THEN <<Shared(t[2]), <<"S", t[2]>>>> ELSE <<t, path>>
+Res(t, path) == IF t[1] = "shared" THEN <<Shared(t[2]), <<0, t[2]>>>> ELSE <<t, path>>
 
 Ident(t, path) == IF IsLeaf(t) THEN t ELSE path
 
